@@ -1,2 +1,13 @@
 //@ item src/loop_logic.rs / struct EventIterator props=C14
 //@ enditem
+//@ region event_iterator_specs props=C14
+impl<'a> EventIterator<'a> {
+    /// the registration token the iterator filters for
+    pub closed spec fn reg(&self) -> RegistrationToken { self.registration_token }
+    /// the events it still ranges over (before filtering)
+    #[verifier::prophetic]
+    pub closed spec fn rest(&self) -> Seq<crate::sys::PollEvent> {
+        vstd::std_specs::iter::IteratorSpec::remaining(&self.inner).map_values(|e: &crate::sys::PollEvent| *e)
+    }
+}
+//@ endregion
